@@ -240,15 +240,30 @@ def rx_ob(prop, id, build, *, timeout=120, bound="", functions=(), stubs=(), tie
             if st == "unsat":
                 continue
             if st == "sat":
-                rep, text = q["replay"](model)
-                if rep:
+                # the model language may be coarser than the real emitter/reader: enumerate further witnesses
+                # (blocking the ones that do not reproduce) before giving up as inconclusive
+                tried = []
+                reproduced = False
+                while True:
+                    rep, text = q["replay"](model)
+                    if rep:
+                        reproduced = True
+                        break
+                    tried.append(list(model))
+                    if len(tried) >= int(q.get("max_witnesses", 25)):
+                        break
+                    st2, model2 = rx.solve_words(q["name"] + f"/witness#{len(tried)+1}", q["langs"], q.get("extra"), int(q.get("timeout_ms", 60000)), exclude=tried)
+                    if st2 != "sat":
+                        break
+                    model = model2
+                if reproduced:
                     verdict = "violated"
                     details.append(f"{q['name']}: witness {model!r} reproduced: {text}")
                     res["replays"].append(write_replay(prop, id, {"query": q["name"], "words": model}, text))
                 else:
                     if verdict != "violated":
                         verdict = "inconclusive"
-                    details.append(f"{q['name']}: witness {model!r} did not reproduce on the real code ({text}): model too coarse")
+                    details.append(f"{q['name']}: {len(tried)} witnesses (first {tried[0]!r}) did not reproduce on the real code ({text}): model too coarse")
             else:
                 if verdict != "violated":
                     verdict = "inconclusive"
